@@ -9,4 +9,5 @@
 //	c08.peers    invalid peer points refused at every step where a peer value enters
 //	c08.ecdh     plain ECDH against x([a]B)
 //	c08.implicitsig  the byte-oriented t = (d + x~ r) mod n through the verif hook, steered onto reduction boundaries
+//	c08.history  object histories: long-lived key objects, interleaved / restarted / failed sessions, Destroy() anywhere
 package c08
